@@ -592,23 +592,38 @@ func compareRows(b *built, got []parquet.Row) (class, what string) {
 		return "row-count", fmt.Sprintf("%d rows in, %d rows out", len(b.want), len(got))
 	}
 	ncols := len(b.added)
-	for i := range got {
-		w, g := safeCanonRow(b.want[i]), safeCanonRow(got[i])
-		if w == g {
-			continue
-		}
-		// which column is wrong?
-		wc, gc := splitCols(ncols, b.want[i]), splitCols(ncols, got[i])
-		for ci := 0; ci < ncols; ci++ {
-			if wc[ci] != gc[ci] {
-				cl := "common-column-differs"
-				if b.added[ci] {
-					cl = "added-column-wrong"
+	layout := ""
+	// columns present on both sides first: a deviation there is never excused
+	// by one on an added column
+	for _, wantAdded := range []bool{false, true} {
+		for i := range got {
+			w, g := safeCanonRow(b.want[i]), safeCanonRow(got[i])
+			if w == g {
+				continue
+			}
+			wc, gc := splitCols(ncols, b.want[i]), splitCols(ncols, got[i])
+			differs := false
+			for ci := 0; ci < ncols; ci++ {
+				if wc[ci] == gc[ci] {
+					continue
 				}
-				return cl, fmt.Sprintf("row %d column %d (%s): want [%s] got [%s]", i, ci, strings.Join(leafPath(b.tgt, ci), "."), core.Trunc(wc[ci], 200), core.Trunc(gc[ci], 200))
+				differs = true
+				if b.added[ci] == wantAdded {
+					cl := "common-column-differs"
+					if wantAdded {
+						cl = "added-column-wrong"
+					}
+					return cl, fmt.Sprintf("row %d column %d (%s): want [%s] got [%s]", i, ci, strings.Join(leafPath(b.tgt, ci), "."), core.Trunc(wc[ci], 200), core.Trunc(gc[ci], 200))
+				}
+			}
+			if !differs && layout == "" {
+				// same values per column, but not laid out column by column (or a column index out of range)
+				layout = fmt.Sprintf("row %d: want [%s] got [%s]", i, core.Trunc(w, 300), core.Trunc(g, 300))
 			}
 		}
-		return "row-layout", fmt.Sprintf("row %d: want [%s] got [%s]", i, core.Trunc(w, 300), core.Trunc(g, 300))
+	}
+	if layout != "" {
+		return "row-layout", layout
 	}
 	return "", ""
 }
@@ -838,8 +853,10 @@ func columnChunkRows(b *built, data []byte) ([]parquet.Row, error) {
 }
 
 // check runs one case through every path.  Returns false when something was reported.
-func check(c *core.Ctx, cs *c12Case) (ok bool, bucket string, nontrivial bool) {
-	ok = true
+func check(c *core.Ctx, cs *c12Case) (out *findings, bucket string, nontrivial bool) {
+	out = &findings{}
+	ok := true
+	_ = ok
 	b := cs.build()
 	nAdded := 0
 	for _, a := range b.added {
@@ -855,8 +872,8 @@ func check(c *core.Ctx, cs *c12Case) (ok bool, bucket string, nontrivial bool) {
 
 	data, werr := writeFile(b.ss, b.rows, cs.NRows/2, cs.Seed)
 	if werr != nil {
-		c.Violation("source-write-error", "writing the source rows failed: "+werr.Error()+info, cs)
-		return false, bucket, nontrivial
+		out.viol("source-write-error", "writing the source rows failed: "+werr.Error()+info)
+		return out, bucket, nontrivial
 	}
 
 	if !b.compatible {
@@ -868,24 +885,24 @@ func check(c *core.Ctx, cs *c12Case) (ok bool, bucket string, nontrivial bool) {
 			return e
 		})
 		if err == nil {
-			c.Violation("kind-clash-accepted", "Convert accepted a target in which a same-named node changes between leaf and group (no error, the node is treated as dropped and added)"+info, cs)
+			out.viol("kind-clash-accepted", "Convert accepted a target in which a same-named node changes between leaf and group (no error, the node is treated as dropped and added)"+info)
 			ok = false
 			// pin down what it does instead: drop + add, i.e. the model's general path
 			rows := cloneRows(b.rows)
 			if e := guarded(func() error { _, e := conv.Convert(rows); return e }); e == nil {
 				if cl, what := compareRows(b, rows); cl != "" {
-					c.Violation("clash-"+cl, "accepted incompatible target, and the result is not even drop+add: "+what+info, cs)
+					out.viol("clash-"+cl, "accepted incompatible target, and the result is not even drop+add: "+what+info)
 				}
 			}
 		}
 		if c.HasOracle() {
 			if a := c.Ask("c12.convert fixed " + srcTok + " " + tgtTok + " " + rowTok(len(b.src.Leaves()), parquet.Row{})); !strings.HasPrefix(a, "REJECT") && len(b.rows) >= 0 {
 				// the request above carries an empty row on purpose: the verdict does not depend on the row
-				c.Mismatch("corr:C12.reject", srcTok+" "+tgtTok, "incompatible (harness rule)", a, cs)
+				out.mism("corr:C12.reject", srcTok+" "+tgtTok, "incompatible (harness rule)", a)
 				ok = false
 			}
 		}
-		return ok, bucket, nontrivial
+		return out, bucket, nontrivial
 	}
 
 	// specification side: goProject + gen.Shred == model project
@@ -897,11 +914,11 @@ func check(c *core.Ctx, cs *c12Case) (ok bool, bucket string, nontrivial bool) {
 			want = append(want, rowTok(len(b.added), b.want[i]))
 		}
 		if a := c.Ask(strings.Join(req, " ")); a != strings.Join(want, " ") {
-			c.Mismatch("corr:C12.project", core.Trunc(strings.Join(req, " "), 1500), strings.Join(want, " "), a, cs)
+			out.mism("corr:C12.project", core.Trunc(strings.Join(req, " "), 1500), strings.Join(want, " "), a)
 			ok = false
 		}
 		if a := c.Ask("c12.compat " + srcTok + " " + tgtTok); a != "111"+map[bool]string{true: "1", false: "0"}[equal] {
-			c.Mismatch("corr:C12.compat", srcTok+" "+tgtTok, "111"+map[bool]string{true: "1", false: "0"}[equal], a, cs)
+			out.mism("corr:C12.compat", srcTok+" "+tgtTok, "111"+map[bool]string{true: "1", false: "0"}[equal], a)
 			ok = false
 		}
 	}
@@ -918,12 +935,23 @@ func check(c *core.Ctx, cs *c12Case) (ok bool, bucket string, nontrivial bool) {
 			if strings.HasPrefix(err.Error(), "PANIC") {
 				cl = "panic"
 			}
-			c.Violation(cl+"-on-compatible-target", p.name+": "+core.Trunc(err.Error(), 300)+info, cs)
+			cl += "-on-compatible-target"
+			if p.name == "MergeRowGroups(schema)" && nAdded > 0 {
+				cl = knownChunkView
+			}
+			out.viol(cl, p.name+": "+core.Trunc(err.Error(), 300)+info)
 			ok = false
 			continue
 		}
 		if cl, what := compareRows(b, got); cl != "" {
-			c.Violation(cl, p.name+": "+what+info, cs)
+			if p.name == "MergeRowGroups(schema)" {
+				// without sorting columns the merged rows are read from the column-chunk
+				// view of the converted row groups: the known finding below
+				if k := chunkViewClass(cl, nAdded); k != cl {
+					cl, what = k, "(reached through MergeRowGroups without sorting columns) "+what
+				}
+			}
+			out.viol(cl, p.name+": "+what+info)
 			ok = false
 			continue
 		}
@@ -936,7 +964,7 @@ func check(c *core.Ctx, cs *c12Case) (ok bool, bucket string, nontrivial bool) {
 				impl = append(impl, rowTok(len(b.added), got[i]))
 			}
 			if a := c.Ask(strings.Join(req, " ")); a != strings.Join(impl, " ") {
-				c.Mismatch("corr:C12.convert", core.Trunc(strings.Join(req, " "), 1500), strings.Join(impl, " "), a, cs)
+				out.mism("corr:C12.convert", core.Trunc(strings.Join(req, " "), 1500), strings.Join(impl, " "), a)
 				ok = false
 			}
 		}
@@ -951,64 +979,123 @@ func check(c *core.Ctx, cs *c12Case) (ok bool, bucket string, nontrivial bool) {
 	}); err != nil {
 		cl := "converted-column-chunks-error"
 		if nAdded > 0 {
-			cl = "converted-column-chunks-levels"
+			cl = knownChunkView
 		}
-		c.Violation(cl, "ConvertRowGroup.ColumnChunks: "+core.Trunc(err.Error(), 300)+info, cs)
-		ok = false
+		out.viol(cl, "ConvertRowGroup.ColumnChunks: "+core.Trunc(err.Error(), 300)+info)
 	} else if cl, what := compareRows(b, got); cl != "" {
-		if cl == "added-column-wrong" || cl == "row-count" && nAdded > 0 {
-			cl = "converted-column-chunks-levels"
+		if k := chunkViewClass(cl, nAdded); k != cl {
+			cl = k
 		} else {
 			cl = "converted-column-chunks-" + cl
 		}
-		c.Violation(cl, "ConvertRowGroup.ColumnChunks: "+what+info, cs)
-		ok = false
+		out.viol(cl, "ConvertRowGroup.ColumnChunks: "+what+info)
 	}
-	return ok, bucket, nontrivial
+	return out, bucket, nontrivial
 }
 
-// runCase checks a case; a failing case is shrunk (fewer rows, fewer edits).
-func runCase(c *core.Ctx, cs c12Case, sample bool) {
-	fails := func(t *c12Case) bool { return c.Probe(func() { check(c, t) }) }
-	if fails(&cs) {
-		for cs.NRows > 1 {
-			t := cs
-			t.NRows = cs.NRows / 2
-			if !fails(&t) {
-				break
-			}
-			cs = t
-		}
-		for changed := true; changed; {
-			changed = false
-			for i := range cs.Edits {
-				t := cs
-				t.Edits = append(append([]edit(nil), cs.Edits[:i]...), cs.Edits[i+1:]...)
-				if t.Kind == "clash" && compatible(t.build().src, t.build().tgt) {
-					continue
-				}
-				if fails(&t) {
-					cs, changed = t, true
-					break
-				}
-			}
-		}
-		for cs.NRows > 1 {
-			t := cs
-			t.NRows--
-			if !fails(&t) {
-				break
-			}
-			cs = t
+// knownChunkView is the id of the known finding about the column-chunk view of
+// converted row groups (missingColumnChunk): the levels and the number of
+// values of a column that the source lacks are wrong there.
+const knownChunkView = "converted-column-chunks-levels"
+
+// chunkViewClass classifies a deviation seen through the column-chunk view:
+// it is the known finding only if the target has a column missing from the
+// source and no column present on both sides is wrong.
+func chunkViewClass(cl string, nAdded int) string {
+	if nAdded > 0 && (cl == "added-column-wrong" || cl == "row-count" || cl == "row-layout") {
+		return knownChunkView
+	}
+	return cl
+}
+
+// findings collects what a case would report, so that each class can be
+// shrunk on its own (a known finding must not steer the shrinking of another
+// failure of the same case).
+type finding struct {
+	class             string // violation class, or the name of the correspondence
+	what              string
+	corr              bool
+	cs, impl, modelAns string
+}
+
+type findings struct{ list []finding }
+
+func (f *findings) viol(class, what string) { f.list = append(f.list, finding{class: class, what: what}) }
+func (f *findings) mism(corr, cs, impl, model string) {
+	f.list = append(f.list, finding{class: corr, corr: true, cs: cs, impl: impl, modelAns: model})
+}
+func (f *findings) first(class string) *finding {
+	for i := range f.list {
+		if f.list[i].class == class {
+			return &f.list[i]
 		}
 	}
-	_, bucket, nontrivial := check(c, &cs)
+	return nil
+}
+
+// runCase checks a case; every class of failure found is shrunk separately
+// (fewer rows, fewer edits) and reported with its own minimal replay.
+func runCase(c *core.Ctx, cs c12Case, sample bool) {
+	out, bucket, nontrivial := check(c, &cs)
+	seen := map[string]bool{}
+	for _, f := range out.list {
+		if seen[f.class] {
+			continue
+		}
+		seen[f.class] = true
+		min := shrink(c, cs, f.class)
+		mo, _, _ := check(c, &min)
+		g := mo.first(f.class)
+		if g == nil {
+			g, min = &f, cs
+		}
+		if g.corr {
+			c.Mismatch(g.class, g.cs, g.impl, g.modelAns, min)
+		} else {
+			c.Violation(g.class, g.what, min)
+		}
+	}
 	key, _ := json.Marshal(cs)
 	c.Case(bucket, string(key), nontrivial)
 	if sample {
 		b := cs.build()
 		c.Sample(map[string]any{"case": cs, "source": b.src.Text(), "target": b.tgt.Text()})
 	}
+}
+
+func shrink(c *core.Ctx, cs c12Case, class string) c12Case {
+	fails := func(t *c12Case) bool {
+		o, _, _ := check(c, t)
+		return o.first(class) != nil
+	}
+	for cs.NRows > 1 {
+		t := cs
+		t.NRows = cs.NRows / 2
+		if !fails(&t) {
+			break
+		}
+		cs = t
+	}
+	for changed := true; changed; {
+		changed = false
+		for i := range cs.Edits {
+			t := cs
+			t.Edits = append(append([]edit(nil), cs.Edits[:i]...), cs.Edits[i+1:]...)
+			if fails(&t) {
+				cs, changed = t, true
+				break
+			}
+		}
+	}
+	for cs.NRows > 1 {
+		t := cs
+		t.NRows--
+		if !fails(&t) {
+			break
+		}
+		cs = t
+	}
+	return cs
 }
 
 func run(c *core.Ctx) {
